@@ -267,7 +267,7 @@ def written_values(ctx, cases, res):
         r = sm.get("w%s" % c["id"])
         if not isinstance(r, list) or r[0] != "ok":
             continue
-        _, sane, nodd, views = r
+        _, sane, nodd, views = r[:4]
         if sane != "1":
             st["not_sane"] += 1
             continue
@@ -566,7 +566,36 @@ def check_C09(ctx):
             tail_bound = bound[len(bound) - len(c["_tail"]):] if c["_tail"] else []
             if tail_bound != c["_tail"]:
                 ctx.violation("verbatim", "spec %r, %r: tokens after -- bound as %r" % (c["root"]["spec"], c["argv"], bound), case=c)
-    ctx.stream("insertion of -- in the trailing block", 0, pairs=npairs, base_lines=len(groups))
+    # how many compared pairs fall under C09_inserted_dd_same_parse (decidable hypotheses, extracted model)
+    vq = [{"op": "views", "id": "v%d" % gi, "env": cases[s].get("env", {}), "decls": cases[s]["root"]["decls"],
+           "spec": cases[s]["root"]["spec"], "argvs": [cases[s + j]["argv"] for j in range(n)]}
+          for gi, (s, n, k) in enumerate(groups)]
+    vm = core.run_model(vq)
+    cov = {"pairs": 0, "under_theorem": 0, "unreadable_or_q1": 0, "not_sane": 0, "other": 0}
+    for gi, (s, n, k) in enumerate(groups):
+        r = vm.get("v%d" % gi)
+        cov["pairs"] += n - 1
+        if not isinstance(r, list) or r[0] != "ok":
+            cov["other"] += n - 1
+            continue
+        if r[1] != "1" or r[4] != "1":
+            cov["not_sane"] += n - 1
+            continue
+        u0 = r[3][0]
+        for j in range(1, n):
+            uj = r[3][j]
+            if u0 == "none" or uj == "none":
+                cov["unreadable_or_q1"] += 1
+                continue
+            # uj = p ++ [dd] ++ positionals, u0 = p ++ the same positionals, no dd in p
+            i = next((x for x, sym in enumerate(uj) if sym[0] == "dd"), None)
+            if (r[2] == "1" and i is not None and uj[:i] + uj[i + 1:] == u0 and all(sym[0] == "p" for sym in uj[i + 1:])
+                    and all(sym[0] != "dd" for sym in uj[:i])):
+                cov["under_theorem"] += 1
+            else:
+                cov["other"] += 1
+    ctx.stream("insertion of -- in the trailing block", 0, pairs=npairs, base_lines=len(groups),
+               theorem_C09_inserted_dd_same_parse=cov)
     ctx.sample({"spec": "X", "argv": ["x"], "variants": [["--", "x"], ["x", "--"]]})
     return ("command lines of --free specs (no env) x every insertion point of '--' in their trailing block of "
             "non-dash tokens, the very end included, compared on the implementation itself; specs with '--' x tails of "
